@@ -30,6 +30,11 @@ RULE = (
     "directives owned by surviving instructions never disappear. "
     "non-trivial = >=1 procedure, >=1 edit and >=1 state compared."
 )
+RULE += (
+    " 15% of the procedures begin behind / end in front of their block's outer instructions;"
+    " 15% of the scenarios insert a whole function written with explicit procedures (one or two abutting ones, labels right behind startproc/endproc), whose directives must evaluate with each procedure opened and closed once;"
+    " outputs in which two zero-sized blocks at one address both carry directives have no defined order and are counted, not judged."
+)
 ASSUMPTIONS = [
     "a directive located after an instruction (same block) is owned by that instruction; directives at a block's offset 0 other than startproc are the procedure's initial state",
     "procedures do not span byte intervals (the final re-layout may permute unconnected intervals)",
